@@ -232,6 +232,15 @@ theorem C12_no_needless_recompile (c : SContent) (ops : List SimOp) (s0 s : SimS
     s.recompilesG Generated.glue = false :=
   no_needless_recompile Generated.glue s (sim_history_inv Generated.glue C12_glue_generated c ops s0 s outs h0 hr) cl ver hj hver
 
+/-- **without a Jacobian only after a failed build.**  In every history, whenever the integrator calls for the Jacobian
+    and has none (`noJac`), the model did not convert at the moment the integrator was last built — construction or the
+    last `clear_results` / `update_variable(s)` (`NoJacJustified` threads that content along the history); it then stays
+    without one, whatever the model becomes, until it is built again.  (Sharpens the `noJac` clause of `GoodOuts`.) -/
+theorem C12_no_jacobian_only_after_failed_build (c : SContent) (ops : List SimOp) (s0 s : SimState)
+    (outs : List SimOut) (h0 : simInitG Generated.glue c = .ok s0) (hr : runG Generated.glue s0 ops = .ok (s, outs)) :
+    NoJacJustified c c ops outs :=
+  sim_history_noJac Generated.glue C12_glue_generated c ops s0 s outs h0 hr
+
 /-- why watching the parameter VALUES alone (the closure before the repair of F-C12-5) was enough for the Simulator's
     own methods: after parameter updates only (`ParUpd`: same declarations, a parameter keeps its value, gets another
     one, or — if it was given by an initial assignment — gets a plain one), an equal tuple of plain-parameter values
